@@ -30,7 +30,7 @@ total = p + n + 1). Oracle: T < limit (total < limit) => delivered / written int
 frame with T > limit (total > limit) => Error::BufferOverflow, for outbound nothing of it reaches \
 the transport, the earlier enqueued message is flushed intact and a later small message is sent \
 intact; == limit is recorded, not judged (the statement leaves the exact boundary open); the \
-receive buffer, inferred from what the read half is offered, never exceeds limit + 256; an \
+receive buffer, inferred from what the read half is offered, never exceeds the limit (no transport write is longer than the limit either); a refused send has written nothing at the moment it is refused, also when it is a send_* behind enqueued messages; an \
 unterminated stream that stops short of the limit and then closes gives UnexpectedEof. \
 Non-trivial = size within 2 bytes of a multiple of 256, or within 600 bytes of the limit, or \
 refused; distinct by hash of the case.";
@@ -58,6 +58,10 @@ pub struct InCase {
     /// false: the stream has no terminator (then Pending forever, or EOF if `eof`).
     pub terminated: bool,
     pub eof: bool,
+    /// The transport reports Pending once when this many bytes have been read, and the pending
+    /// receive is abandoned there (dropped and started anew): the limit bookkeeping must survive.
+    #[serde(default)]
+    pub abandon_at: Option<usize>,
 }
 
 /// A frame of exactly `size` bytes that decodes as `Reply<serde_json::Value>` when size >= 2.
@@ -88,6 +92,9 @@ struct BulkState {
     eof: bool,
     reads: u64,
     max_extent: usize,
+    pause_at: Option<usize>,
+    /// set by the poll that reported the pause
+    paused_now: bool,
 }
 #[derive(Debug, Clone)]
 struct BulkRead(Rc<RefCell<BulkState>>);
@@ -108,6 +115,11 @@ impl ReadHalf for BulkRead {
             let left = st.data.len() - st.pos;
             if left == 0 {
                 return if st.eof { Poll::Ready(Ok(0)) } else { Poll::Pending };
+            }
+            if st.pause_at.is_some_and(|p| st.pos >= p) {
+                st.pause_at = None;
+                st.paused_now = true;
+                return Poll::Pending;
             }
             let n = left.min(buf.len()).min(st.chunk);
             if n == 0 {
@@ -157,6 +169,7 @@ fn run_in(case: &InCase) -> (Vec<RxOutcome>, usize, usize) {
         data,
         chunk: case.chunk.max(1),
         eof: case.eof,
+        pause_at: case.abandon_at,
         ..Default::default()
     }));
     let conn = Connection::new(BulkSocket(BulkRead(st.clone())));
@@ -170,7 +183,12 @@ fn run_in(case: &InCase) -> (Vec<RxOutcome>, usize, usize) {
         if round == 1 {
             extent_first = st.borrow().max_extent;
         }
-        let r = run_until_ready(rc.receive_reply::<serde_json::Value, ErrNone>(), budget);
+        let mut r = run_until_ready(rc.receive_reply::<serde_json::Value, ErrNone>(), if case.abandon_at.is_some() { 1 } else { budget });
+        if r.is_none() && case.abandon_at.is_some() {
+            // the future was dropped at the pause (or at any other Pending): start a new receive
+            st.borrow_mut().paused_now = false;
+            r = run_until_ready(rc.receive_reply::<serde_json::Value, ErrNone>(), budget);
+        }
         let o = match r {
             None => RxOutcome::Pending,
             Some(Ok(Ok(rep))) => RxOutcome::Value(match rep.parameters() {
@@ -220,12 +238,16 @@ fn judge_in(case: &InCase, stats: &mut Stats) -> CaseResult {
     if case.prefix_frames > 0 {
         stats.class("in:behind-pipelined-prefix");
     }
+    if case.abandon_at.is_some() {
+        stats.class("in:receive-abandoned-mid-frame");
+    }
     let (out, consumed, extent) = run_in(case);
     let fail = |sig: &str, msg: String| {
         Err(Fail::new(sig, format!("limit {l}, {case:?}: {msg}; results {out:?}, consumed {consumed} bytes, buffer extent {extent}")))
     };
-    if extent > l + STEP {
-        return fail("in-buffer-exceeds-limit", format!("receive buffer grew to {extent} > limit + 256"));
+    // the limit is "the upper bound on either buffer" (anchor of the property)
+    if extent > l {
+        return fail("in-buffer-exceeds-limit", format!("receive buffer grew to {extent} > limit"));
     }
     let expect_value = |i: usize| -> Option<usize> {
         if i < case.prefix_frames {
@@ -307,6 +329,10 @@ pub struct OutCase {
     /// Encoded length of the message under test.
     pub len: usize,
     pub kind: MsgKind,
+    /// the message under test is handed to send_* (enqueue + flush) although a message is already
+    /// enqueued in front of it; otherwise it is enqueued behind it (calls) / sent (empty queue)
+    #[serde(default)]
+    pub send: bool,
 }
 
 const BASE_FLAGS: u8 = 0;
@@ -371,12 +397,20 @@ fn judge_out(case: &OutCase, stats: &mut Stats) -> CaseResult {
     }
     // The message under test is enqueued when there is something in front of it (so both leave in
     // one write), otherwise sent directly.
-    let op = op_for(case.kind, first.is_some());
+    let op = op_for(case.kind, first.is_some() && !case.send);
+    if first.is_some() && case.send {
+        stats.class("out:send-behind-enqueued-message");
+    }
     let r = run_until_ready(msg.submit(wc, op), 4);
     let r = match r {
         Some(r) => r,
         None => return fail("out-pending", "send stayed pending on an always-ready transport".into()),
     };
+    // a refused message "sends nothing": not its own bytes, and not what was queued in front of it
+    let writes_at_refusal = handle.writes().len();
+    if r.is_err() && writes_at_refusal > 0 {
+        return fail("out-refusal-wrote-to-the-transport", format!("the refused send returned {r:?} after {writes_at_refusal} transport write(s)"));
+    }
     let flushed = run_until_ready(wc.flush(), 4);
     if !matches!(flushed, Some(Ok(()))) {
         return fail("out-flush", format!("flush gave {flushed:?}"));
@@ -384,7 +418,7 @@ fn judge_out(case: &OutCase, stats: &mut Stats) -> CaseResult {
     let small = Msg::Ok { kind: MsgKind::CallPing, flags: 2, pad: 0 };
     let after = run_until_ready(small.submit(wc, SendOp::SendCall), 4);
     let writes = handle.writes();
-    if writes.iter().any(|w| w.len() > l + STEP) {
+    if writes.iter().any(|w| w.len() > l) {
         return fail("out-write-exceeds-limit", format!("a transport write of {} bytes", writes.iter().map(|w| w.len()).max().unwrap()));
     }
     let mut expect_accept: Vec<Vec<u8>> = Vec::new();
@@ -473,11 +507,23 @@ fn small_cases(ctx: &Ctx) -> Vec<Case> {
             if chunk == 1 && !(size % STEP <= 2 || size % STEP >= STEP - 2 || size + 600 >= l) {
                 continue;
             }
-            v.push(Case::In(InCase { build: b.clone(), size, chunk, prefix_frames: 0, terminated: true, eof: true }));
+            v.push(Case::In(InCase { build: b.clone(), size, chunk, prefix_frames: 0, terminated: true, eof: true, abandon_at: None }));
         }
         // unterminated: stops short / runs over
         let chunk = chunks[size % chunks.len()];
-        v.push(Case::In(InCase { build: b.clone(), size, chunk, prefix_frames: 0, terminated: false, eof: size % 2 == 0 }));
+        v.push(Case::In(InCase { build: b.clone(), size, chunk, prefix_frames: 0, terminated: false, eof: size % 2 == 0, abandon_at: None }));
+    }
+    // a receive abandoned while a frame close to the limit is arriving
+    for occupied in l.saturating_sub(700)..l + 300 {
+        if occupied < 40 {
+            continue;
+        }
+        let size = occupied - 1;
+        for at in [occupied - 30, l.saturating_sub(STEP) + 1, l.saturating_sub(2 * STEP) + 7, occupied / 2] {
+            if at < occupied {
+                v.push(Case::In(InCase { build: b.clone(), size, chunk: [256usize, 100, 31][occupied % 3], prefix_frames: 0, terminated: true, eof: true, abandon_at: Some(at) }));
+            }
+        }
     }
     // inbound behind a pipelined prefix (random fill positions)
     let n_prefix = if thorough { 40_000 } else { 6_000 };
@@ -486,7 +532,7 @@ fn small_cases(ctx: &Ctx) -> Vec<Case> {
         let prefix_frames = 1 + (r % 40) as usize;
         let size = 1 + ((r >> 8) as usize % (l + STEP));
         let chunk = [256usize, 255, 100, 31][(r >> 40) as usize % 4];
-        v.push(Case::In(InCase { build: b.clone(), size, chunk, prefix_frames, terminated: true, eof: true }));
+        v.push(Case::In(InCase { build: b.clone(), size, chunk, prefix_frames, terminated: true, eof: true, abandon_at: None }));
     }
     // outbound from an empty queue
     let kinds = [MsgKind::CallEcho, MsgKind::ReplyOpt, MsgKind::ErrWorse, MsgKind::ReplyValue, MsgKind::CallPut];
@@ -495,7 +541,7 @@ fn small_cases(ctx: &Ctx) -> Vec<Case> {
         let near = r <= 3 || r >= STEP - 3 || len + 600 >= l;
         if near || thorough || len % 7 == 0 {
             let kind = kinds[len % kinds.len()];
-            v.push(Case::Out(OutCase { build: b.clone(), fill: 0, len, kind }));
+            v.push(Case::Out(OutCase { build: b.clone(), fill: 0, len, kind, send: false }));
         }
     }
     // outbound behind an enqueued message: the end position sweeps the limit and the steps
@@ -506,7 +552,14 @@ fn small_cases(ctx: &Ctx) -> Vec<Case> {
             let near = r <= 2 || r >= STEP - 2 || total + 300 >= l;
             if near || (thorough && total % 5 == 0) {
                 let len = total - fill - 1;
-                v.push(Case::Out(OutCase { build: b.clone(), fill, len, kind: MsgKind::CallEcho }));
+                v.push(Case::Out(OutCase { build: b.clone(), fill, len, kind: MsgKind::CallEcho, send: false }));
+                // the same through send_* (replies / errors / calls) behind the enqueued call; also a
+                // message that exceeds the limit all on its own
+                let kind = kinds[total % kinds.len()];
+                v.push(Case::Out(OutCase { build: b.clone(), fill, len, kind, send: true }));
+                if total % 4 == 0 && total > l {
+                    v.push(Case::Out(OutCase { build: b.clone(), fill, len: l + (total % 300), kind, send: true }));
+                }
             }
         }
     }
@@ -519,10 +572,10 @@ fn prod_cases() -> Vec<Case> {
     let mut v = Vec::new();
     // occupied = size + 1
     for occupied in [l - 257, l - 256, l - 2, l - 1, l, l + 1, l + 300] {
-        v.push(Case::In(InCase { build: b.clone(), size: occupied - 1, chunk: 256, prefix_frames: 0, terminated: true, eof: true }));
+        v.push(Case::In(InCase { build: b.clone(), size: occupied - 1, chunk: 256, prefix_frames: 0, terminated: true, eof: true, abandon_at: None }));
     }
-    v.push(Case::In(InCase { build: b.clone(), size: l + 4096, chunk: 255, prefix_frames: 0, terminated: false, eof: false }));
-    v.push(Case::In(InCase { build: b.clone(), size: l - 4096, chunk: 256, prefix_frames: 0, terminated: false, eof: true }));
+    v.push(Case::In(InCase { build: b.clone(), size: l + 4096, chunk: 255, prefix_frames: 0, terminated: false, eof: false, abandon_at: None }));
+    v.push(Case::In(InCase { build: b.clone(), size: l - 4096, chunk: 256, prefix_frames: 0, terminated: false, eof: true, abandon_at: None }));
     v
 }
 
